@@ -122,30 +122,66 @@ def check_validation(chk, key, ml, cl, rng, replay):
     return acc
 
 
+# ------------------------------------------------------------------ stream 0: corpus of minimised earlier failures
+def load_corpus():
+    import glob, os
+    root = os.path.join(os.path.dirname(os.path.dirname(os.path.abspath(__file__))), "corpus", "C14")
+    cases = []
+    for fn in sorted(glob.glob(os.path.join(root, "*.json"))):
+        for c in json.load(open(fn)).get("cases", []):
+            cases.append((os.path.basename(fn), c))
+    return cases
+
+
+CORPUS = load_corpus()
+
+
+def stream_corpus(chk, i, rng):
+    fn, c = CORPUS[i]
+    ml = [tuple(p) for p in c["must_link"]]
+    cl = [tuple(p) for p in c["cannot_link"]]
+    check_validation(chk, "corpus", ml, cl, rng, {"corpus_file": fn})
+    chk.dist["corpus"] += 1
+    chk.count(("corpus", tuple(ml), tuple(cl)) if ml and cl else None)
+
+
 # ------------------------------------------------------------------ stream 1: exhaustive small universe
 UNIVERSE = [20, 3, 42, 7, 11]                      # non-contiguous, unordered
 UPAIRS = list(itertools.combinations(UNIVERSE, 2))  # 10 unordered pairs
 SETS = [s for r in range(4) for s in itertools.combinations(range(len(UPAIRS)), r)]   # 176 sets of <= 3 pairs
 
 
-def orient(rng, sel):
+UNIVERSE6 = [64, 5, 130, 9, 17, 2]                  # thorough tier: six indices, 15 unordered pairs, 576 sets of <= 3 pairs
+UPAIRS6 = list(itertools.combinations(UNIVERSE6, 2))
+SETS6 = [s for r in range(4) for s in itertools.combinations(range(len(UPAIRS6)), r)]
+
+
+def orient(rng, sel, upairs):
     out = []
     for k in sel:
-        a, b = UPAIRS[k]
+        a, b = upairs[k]
         out.append((b, a) if rng.random() < 0.5 else (a, b))
     rng.shuffle(out)
     return [tuple(p) for p in out]
 
 
-def stream_exhaustive(chk, i, rng):
-    a, b = divmod(i, len(SETS))
-    ml, cl = orient(rng, SETS[a]), orient(rng, SETS[b])
-    acc = check_validation(chk, "exhaustive", ml, cl, rng, {"universe": UNIVERSE})
-    chk.dist[f"exh:|ml|={len(ml)},|cl|={len(cl)}"] += 1
-    chk.dist["exh:accepted" if acc else "exh:rejected"] += 1
-    chk.count(("exh", SETS[a], SETS[b]) if ml and cl else None)
+def exhaustive_case(chk, i, rng, tag, universe, upairs, sets):
+    a, b = divmod(i, len(sets))
+    ml, cl = orient(rng, sets[a], upairs), orient(rng, sets[b], upairs)
+    acc = check_validation(chk, tag, ml, cl, rng, {"universe": universe})
+    chk.dist[f"{tag}:|ml|={len(ml)},|cl|={len(cl)}"] += 1
+    chk.dist[f"{tag}:accepted" if acc else f"{tag}:rejected"] += 1
+    chk.count((tag, sets[a], sets[b]) if ml and cl else None)
     if ml and cl and not acc:
-        chk.sample({"stream": "exhaustive", "must_link": ml, "cannot_link": cl, "accepted": acc}, limit=2)
+        chk.sample({"stream": tag, "must_link": ml, "cannot_link": cl, "accepted": acc}, limit=2)
+
+
+def stream_exhaustive(chk, i, rng):
+    exhaustive_case(chk, i, rng, "exhaustive", UNIVERSE, UPAIRS, SETS)
+
+
+def stream_exhaustive6(chk, i, rng):
+    exhaustive_case(chk, i, rng, "exhaustive6", UNIVERSE6, UPAIRS6, SETS6)
 
 
 # ------------------------------------------------------------------ stream 2: random larger sets
@@ -537,14 +573,16 @@ def stream_fit(chk, i, rng):
 
 
 STREAMS = {  # name: (fn, quick, thorough)
+    "corpus": (stream_corpus, len(CORPUS), len(CORPUS)),
     "exhaustive": (stream_exhaustive, len(SETS) * len(SETS), len(SETS) * len(SETS)),
-    "random": (stream_random, 1500, 30000),
-    "malformed": (stream_malformed, 900, 12000),
+    "exhaustive6": (stream_exhaustive6, 0, len(SETS6) * len(SETS6)),
+    "random": (stream_random, 2000, 60000),
+    "malformed": (stream_malformed, 900, 15000),
     "api": (stream_api, 7, 7),
-    "grads": (stream_grads, 680, 10000),
-    "fit": (stream_fit, 136, 1700),
+    "grads": (stream_grads, 850, 25000),
+    "fit": (stream_fit, 272, 6800),
 }
-FIXED = ("exhaustive", "api")
+FIXED = ("corpus", "exhaustive", "exhaustive6", "api")
 
 
 def main():
@@ -563,7 +601,7 @@ def main():
             if chk.l1_broken and name not in FIXED:
                 cnt *= 3       # proof obligation broken: widen the failing-input search
             chk.run_stream(name, fn, cnt)
-    chk.finish(rule="streams: exhaustive = every (ML, CL) with <=3 unordered pairs each over the universe {20,3,42,7,11} (176x176, random orientation/order/container); "
+    chk.finish(rule="streams: exhaustive = every (ML, CL) with <=3 unordered pairs each over the universe {20,3,42,7,11} (176x176, random orientation/order/container; thorough adds 576x576 over six indices); "
                     "random = 2..25 non-contiguous indices, grouped or chained must-links with planted contradictions / self pairs / duplicates; malformed = None, [], scalars, "
                     "flat lists, single-column, zero-column, ragged, 3-4 column and well-shaped inputs on both arguments; grads = decorated _batchify then decorated _compute_grads "
                     "of every gradient estimator with a recording inner function (2 epochs, K=1..5, batch_size 1..n+2/None, pairs reaching outside the data); fit = real decorated fits "
